@@ -807,6 +807,9 @@ Section Relex.
   (* the token t of source s is in the known class F12 *)
   Definition KeywordLikeIdent (s : str) (t : token) : Prop := Known (tkind t) (bslice s (tstart t) (tend t)).
 
+  Lemma known_is_ident s t : KeywordLikeIdent s t -> exists w, tkind t = KIdent w /\ (In w (t_keywords T) \/ In w (words T)).
+  Proof. intros (w & A & _ & C). exists w. auto. Qed.
+
   Theorem relex_partial s ts' t : lex s = Some (start_token :: ts') -> In t ts' -> ~ KeywordLikeIdent s t ->
     lex (bslice s (tstart t) (tend t)) = Some [start_token; {| tkind := tkind t; tstart := 0; tend := tend t - tstart t |}].
   Proof.
